@@ -250,6 +250,17 @@ func (r *GoRec) Add(vs ...int64) int64 {
 }
 func (r GoRec) Nothing() {}
 
+// structs that embed another struct by value / by pointer: the embedded struct's exported fields and methods are promoted
+type GoEmb struct {
+	GoRec
+	Extra int64
+}
+
+type GoEmbP struct {
+	*GoRec
+	Tag string
+}
+
 // named non-struct types with value- and pointer-receiver methods
 type GoStack []int64
 
@@ -557,6 +568,17 @@ func streamGoConv(o *Out, r *rand.Rand, n int, thorough bool) {
 		{"named-map-pointer-method", "pdi.Put(\"z\", 2)\npdi.Size()", "int64:2"},
 		{"named-string-value-method", "tx.Upper()", "string:" + hexOf("AB")},
 		{"named-string-pointer-method", "ptx.Append(\"c\")\nptx.Upper()", "string:" + hexOf("ABC")},
+		{"promoted-field-read", "em.A", "int64:5"},
+		{"promoted-field-read-pointer", "pem.B", "string:" + hexOf("b")},
+		{"promoted-field-own", "[em.Extra, pem.Extra]", "[]iface[int64:3 int64:3]"},
+		{"promoted-field-explicit-path", "em.GoRec.A", "int64:5"},
+		{"promoted-field-write-read", "pem.A = 42\npem.A", "int64:42"},
+		{"promoted-field-via-embedded-pointer", "emp.A", "int64:5"},
+		{"promoted-field-via-embedded-pointer-p", "pemp.C", "[]int64[int64:1 int64:2]"},
+		{"promoted-field-via-embedded-pointer-write", "pemp.A = 6\n[pemp.A, emp.Tag]", "[]iface[int64:6 string:" + hexOf("t") + "]"},
+		{"promoted-method", "em.Get()", "int64:5"},
+		{"promoted-pointer-method", "pem.Set(9)\npem.Get()", "int64:9"},
+		{"promoted-unexported", "em.n", "ERROR"},
 		{"pointer-method-via-variable", "q = pst\nq.Push(1)\nq.Push(2)\npst.Len()", "int64:4"},
 		{"pointer-method-via-element", "l = [pnu]\nl[0].Inc()\npnu.Double()", "int64:44"},
 	}
@@ -568,6 +590,10 @@ func streamGoConv(o *Out, r *rand.Rand, n int, thorough bool) {
 		_ = e.Define("p", ptr)
 		pst, pnu, pdi, ptx := &GoStack{1, 2}, new(GoNum), &GoDict{"a": 1}, new(GoText)
 		*pnu, *ptx = 21, "ab"
+		_ = e.Define("em", GoEmb{GoRec: GoRec{A: 5, B: "b", C: []int64{1, 2}}, Extra: 3})
+		_ = e.Define("pem", &GoEmb{GoRec: GoRec{A: 5, B: "b", C: []int64{1, 2}}, Extra: 3})
+		_ = e.Define("emp", GoEmbP{GoRec: &GoRec{A: 5, B: "b", C: []int64{1, 2}}, Tag: "t"})
+		_ = e.Define("pemp", &GoEmbP{GoRec: &GoRec{A: 5, B: "b", C: []int64{1, 2}}, Tag: "t"})
 		_ = e.Define("st", GoStack{1, 2})
 		_ = e.Define("pst", pst)
 		_ = e.Define("nu", GoNum(21))
